@@ -90,7 +90,13 @@ def case(ctx, idx, res):
             ctxlist = [cnode]
             if r.random() < 0.3 and cnode.parent is not None and cnode.kind not in (refxml.ATTR, refxml.NS):
                 ctxlist = X.sort_unique([s for s in cnode.parent.children if r.random() < 0.7 or s is cnode])
-            rep = C.call_xpath(drv, h, expr, cnode.path(), [n.path() for n in ctxlist], NS, variables, 'all')
+            # the string entry appends to the caller's buffer (AVT parts share one): give it a non-empty one
+            rep = C.call_xpath(drv, h, expr, cnode.path(), [n.path() for n in ctxlist], NS, variables, 'all', strprefix='PRE|')
+            if 'str' in rep:
+                if not rep['str'].startswith('PRE|'):
+                    res.viol('entry-str-overwrites-buffer|%s' % (ast[0] if ast[0] != 'func' else 'func:' + ast[1]), 'the string entry point overwrote the caller\'s buffer instead of appending for %s (got %r)' % (expr, rep['str'][:60]), {'expression': expr})
+                else:
+                    rep['str'] = rep['str'][4:]
             res.evals += 1
             if 'compile_error' in rep:
                 res.count('rejected_at_compile')
